@@ -272,6 +272,19 @@ Trans(st, a, luck) ==
                       IN Res(g[1], TRUE, g[2], {}, {}, {}, "privesc_ok", nd)
                ELSE Fail(st, {}, "privesc_cfg_fail", nd)
 
+\* Would action a, with a lucky draw, change the state?  (A closed form of Trans(st, a, TRUE).st # st that does
+\* not build the next state; NASimEnv checks the equivalence on every transition it generates.)
+WouldChange(st, a) ==
+    LET t == a.target IN
+    /\ a.kind \in {"exploit", "privesc", "subnet_scan"}
+    /\ st[t].reach /\ st[t].disc
+    /\ CASE a.kind = "exploit" ->
+               /\ HasRemotePerm(st, a) /\ TrafficPermitted(st, t, a.srv) /\ HostCfgPre(a)
+               /\ (~st[t].comp \/ st[t].acc < a.access
+                   \/ \E h \in Hosts : Connected(Sub(t), Sub(h)) /\ ~st[h].reach)
+         [] a.kind = "privesc" -> OnHostPre(st, a) /\ HostCfgPre(a) /\ st[t].acc < a.access
+         [] OTHER -> OnHostPre(st, a) /\ \E h \in Hosts : Connected(Sub(t), Sub(h)) /\ ~st[h].disc
+
 \* the gates whose outcome does not depend on the draw: everything decided
 \* before the chance gate
 PreDrawGates == {"noop", "not_reach_disc", "no_pivot", "traffic_blocked",
